@@ -9,23 +9,21 @@ MUTANTS = [
     dict(id="m01-swap-ga-fields", fires=["C01"], key="rp_id", edits=[("src/ctap2/get_assertion.rs",
          "    pub rp_id: &'a str,\n    pub client_data_hash: &'a serde_bytes::Bytes,", "    pub client_data_hash: &'a serde_bytes::Bytes,\n    pub rp_id: &'a str,")]),
     dict(id="m01-drop-url-alias", fires=["C01", "C13", "C15"], key="icon", edits=[("src/webauthn.rs", '#[serde(skip_serializing, alias = "url")]', "#[serde(skip_serializing)]")]),
-    dict(id="m01-bytes-to-str", fires=["C01"], key="pin_auth", edits=[("src/ctap2/credential_management.rs", "    pub pin_auth: Option<&'a serde_bytes::Bytes>,", "    pub pin_auth: Option<&'a str>,")]),
     # ---- C02
-    dict(id="m02-null-member", fires=["C02"], key="no-null", edits=[("src/ctap2/client_pin.rs",
-         '    #[serde(skip_serializing_if = "Option::is_none")]\n    pub pin_token: Option<Bytes<48>>,', "    pub pin_token: Option<Bytes<48>>,")]),
     dict(id="m02-swap-ga-response", fires=["C02"], key="ep_att", edits=[("src/ctap2/get_assertion.rs",
          '    #[serde(skip_serializing_if = "Option::is_none")]\n    pub ep_att: Option<bool>,\n    #[serde(skip_serializing_if = "Option::is_none")]\n    pub att_stmt: Option<AttestationStatement>,\n}',
          '    #[serde(skip_serializing_if = "Option::is_none")]\n    pub att_stmt: Option<AttestationStatement>,\n    #[serde(skip_serializing_if = "Option::is_none")]\n    pub ep_att: Option<bool>,\n}')]),
     dict(id="m02-a0-collapse", fires=["C02", "C17"], key="frame", edits=[("src/ctap2.rs", "if slice == [0xA0] {", "if slice == [0xA1] {")]),
     # ---- C03
-    dict(id="m03-move-option", fires=["C03", "C15"], key="order", edits=[("src/ctap2/get_info.rs",
-         '    pub rk: bool,\n    pub up: bool,\n', '    pub up: bool,\n    pub rk: bool,\n')]),
     dict(id="m03-indefinite-seq", fires=["C03", "C02"], key="definite", edits=[("src/webauthn.rs", "serializer.serialize_seq(Some(self.0.len()))?", "serializer.serialize_seq(None)?")]),
     # ---- C04
     dict(id="m04-push-unwrap", fires=["C04", "C14"], key="unwrap", edits=[("src/webauthn.rs", "                    values.0.push(el).ok();", "                    values.0.push(el).unwrap();")]),
     dict(id="m04-string-from", fires=["C04", "C13"], key="skip", edits=[("src/webauthn.rs",
-         "    match String::try_from(s) {\n        Ok(string) => Ok(Some(string)),\n        Err(_err) => {\n            info_now!(\"skipping field: {:?}\", _err);\n            Ok(None)\n        }\n    }",
+         "    let mut string = String::new();\n    match string.push_str(s) {\n        Ok(()) => Ok(Some(string)),\n        Err(_err) => {\n            info_now!(\"skipping field: {:?}\", _err);\n            Ok(None)\n        }\n    }",
          "    if s.len() > L + 1 {\n        return Ok(None);\n    }\n    Ok(Some(String::from(s)))")]),
+    dict(id="m04-try-from-blanket", fires=["C13", "C04"], key="fallible-conversion", edits=[("src/webauthn.rs",
+         "    let mut string = String::new();\n    match string.push_str(s) {\n        Ok(()) => Ok(Some(string)),",
+         "    #[allow(clippy::unnecessary_fallible_conversions)]\n    match String::try_from(s) {\n        Ok(string) => Ok(Some(string)),")]),
     # ---- C05
     dict(id="m05-custom-to-invalid-parameter", fires=["C05"], key="SerdeDeCustom", edits=[("src/ctap2.rs",
          "                cbor_smol::Error::SerdeMissingField => Error::MissingParameter,\n", "                cbor_smol::Error::SerdeMissingField => Error::MissingParameter,\n                cbor_smol::Error::SerdeDeCustom => Error::InvalidParameter,\n")]),
@@ -45,8 +43,6 @@ MUTANTS = [
          "        if cla != 0 {\n            return Err(Error::ClassNotSupported);\n        }\n\n        if ins == 0x3 {\n            // for some weird historical reason, [0, 3, 0, 0, 0, 0, 0, 0, 0]\n            // is valid to send here.\n            return Ok(Request::Version);\n        };",
          "        if ins == 0x3 {\n            return Ok(Request::Version);\n        };\n        if cla != 0 {\n            return Err(Error::ClassNotSupported);\n        }")]),
     # ---- C09
-    dict(id="m09-swap-appends", fires=["C09"], key="layout", edits=[("src/ctap1.rs",
-         "                buf.extend_from_slice(&reg.key_handle)?;\n                buf.extend_from_slice(&reg.attestation_certificate)?;", "                buf.extend_from_slice(&reg.attestation_certificate)?;\n                buf.extend_from_slice(&reg.key_handle)?;")]),
     dict(id="m09-drop-result", fires=["C09"], key="propagated", edits=[("src/ctap1.rs", "                buf.extend_from_slice(&auth.count.to_be_bytes())?;", "                let _ = buf.extend_from_slice(&auth.count.to_be_bytes());")]),
     # ---- C10
     dict(id="m10-reset-selection", fires=["C10"], key="Reset", edits=[("src/ctap2.rs", "self.reset().inspect_err", "self.selection().inspect_err")]),
@@ -60,13 +56,11 @@ MUTANTS = [
     dict(id="m12-permissions-u32", fires=["C12"], key="permissions", edits=[("src/ctap2/client_pin.rs", "    pub permissions: Option<u8>,", "    pub permissions: Option<u32>,")]),
     # ---- C13
     dict(id="m13-window-3", fires=["C13", "C04"], key="floor", edits=[("src/webauthn.rs", "let lower_bound = index.saturating_sub(3);", "let lower_bound = index.saturating_sub(2);")]),
-    dict(id="m13-position", fires=["C13", "C04"], key="floor", edits=[("src/webauthn.rs", ".rposition(|b| is_utf8_char_boundary(*b));", ".position(|b| is_utf8_char_boundary(*b));")]),
     dict(id="m13-icon-truncates", fires=["C13", "C01", "C12"], key="icon", edits=[("src/webauthn.rs", '        deserialize_with = "deserialize_from_str_and_skip_if_too_long"', '        deserialize_with = "deserialize_from_str_and_truncate"')]),
     # ---- C14
     dict(id="m14-error-on-unknown", fires=["C14"], key="algs", edits=[("src/webauthn.rs", "                        // Drop unknown algorithms\n                        continue;", '                        return Err(serde::de::Error::custom("unknown algorithm"));')]),
     dict(id="m14-polarity", fires=["C14"], key="known", edits=[("src/webauthn.rs", 'if value.key_type != "public-key" {', 'if value.key_type == "public-key" {')]),
     # ---- C15
-    dict(id="m15-transport-cross", fires=["C15", "C18"], key="Transport", edits=[("src/ctap2/get_info.rs", "            Self::NFC => Ok(Self::Nfc),\n            Self::USB => Ok(Self::Usb),", "            Self::NFC => Ok(Self::Usb),\n            Self::USB => Ok(Self::Nfc),")]),
     # ---- C16
     dict(id="m16-gated-before-ungated", fires=["C16", "C02"], key="large_blob_key", edits=[("src/ctap2/credential_management.rs",
          '    // 0x0B\n    #[serde(skip_serializing_if = "Option::is_none")]\n    pub large_blob_key: Option<ByteArray<32>>,\n    // 0x0C\n    #[cfg(feature = "third-party-payment")]\n    #[serde(skip_serializing_if = "Option::is_none")]\n    pub third_party_payment: Option<bool>,',
@@ -75,13 +69,22 @@ MUTANTS = [
     dict(id="m17-len-no-plus-one", fires=["C17", "C02"], key="final-length", edits=[("src/ctap2.rs", "buffer.resize_default(l + 1).ok();", "buffer.resize_default(l).ok();")]),
     dict(id="m17-err-keeps-capacity", fires=["C17", "C02"], key="buffer-ops", edits=[("src/ctap2.rs", "            *status = Error::Other as u8;\n            buffer.resize_default(1).ok();", "            *status = Error::Other as u8;")]),
     # ---- C18
-    dict(id="m18-spelling", fires=["C18", "C15"], key="LargeBlobKey", edits=[("src/ctap2/get_info.rs", 'const LARGE_BLOB_KEY: &' + Q + 'static str = "largeBlobKey";', 'const LARGE_BLOB_KEY: &' + Q + 'static str = "largeBlobkey";')]),
     dict(id="m18-discriminant", fires=["C18"], key="GetUVRetries", edits=[("src/ctap2/client_pin.rs", "GetUVRetries = 0x07,", "GetUVRetries = 0x08,")]),
     # ---- C19 (arbitrary feature)
     dict(id="m19-no-min", fires=["C19"], key="arbitrary_bytes", features="all", edits=[("src/arbitrary.rs", "    let n = usize::arbitrary(u)?.min(N);\n    Ok(Bytes::from_slice(u.bytes(n)?).unwrap())", "    let n = usize::arbitrary(u)?;\n    Ok(Bytes::from_slice(u.bytes(n)?).unwrap())")]),
     dict(id="m19-bytes-31", fires=["C19"], key="register", features="all", edits=[("src/arbitrary.rs",
          "        let challenge = u.bytes(32)?.try_into().unwrap();\n        let app_id = u.bytes(32)?.try_into().unwrap();\n        Ok(Self { challenge, app_id })",
          "        let challenge = u.bytes(32)?.try_into().unwrap();\n        let app_id = u.bytes(31)?.try_into().unwrap();\n        Ok(Self { challenge, app_id })")]),
+    # ---- replacements for cases the existing tests already catch (a valid mutant must pass the 36 tests)
+    dict(id="m02-null-member", fires=["C02"], key="no-null", edits=[("src/ctap2/get_assertion.rs",
+         '    #[serde(skip_serializing_if = "Option::is_none")]\n    pub user_selected: Option<bool>,', "    pub user_selected: Option<bool>,")]),
+    dict(id="m03-swap-extensions", fires=["C03", "C15"], key="order", edits=[("src/ctap2/make_credential.rs",
+         '    #[serde(rename = "hmac-secret")]\n    #[serde(skip_serializing_if = "Option::is_none")]\n    pub hmac_secret: Option<bool>,\n\n', ""),
+         ("src/ctap2/make_credential.rs", '    pub large_blob_key: Option<bool>,\n', '    pub large_blob_key: Option<bool>,\n\n    #[serde(rename = "hmac-secret")]\n    #[serde(skip_serializing_if = "Option::is_none")]\n    pub hmac_secret: Option<bool>,\n')]),
+    dict(id="m09-key-handle-300", fires=["C09"], key="key_handle", edits=[("src/ctap1.rs", "        pub key_handle: Bytes<255>,\n        pub attestation_certificate", "        pub key_handle: Bytes<300>,\n        pub attestation_certificate"),
+         ("src/ctap1.rs", "            key_handle: Bytes<255>,\n            signature: Bytes<72>,", "            key_handle: Bytes<300>,\n            signature: Bytes<72>,")]),
+    dict(id="m15-rename-serialize-only", fires=["C15"], key="up", edits=[("src/ctap2.rs", '    #[serde(skip_serializing_if = "Option::is_none")]\n    pub up: Option<bool>,', '    #[serde(skip_serializing_if = "Option::is_none", rename(serialize = "UP"))]\n    pub up: Option<bool>,')]),
+    dict(id="m18-spelling", fires=["C18", "C15"], key="ThirdPartyPayment", edits=[("src/ctap2/get_info.rs", 'const THIRD_PARTY_PAYMENT: &' + Q + 'static str = "thirdPartyPayment";', 'const THIRD_PARTY_PAYMENT: &' + Q + 'static str = "thirdpartyPayment";')]),
 ]
 
 BENIGN = [
@@ -122,6 +125,15 @@ BENIGN = [
         ("src/webauthn.rs", "(b as i8) >= -0x40", "(b as i8) >= -0x3F")]),
     dict(id="b14-u2f-serialize-let-binding", note="ctap1::Response::serialize: length byte hoisted into a let", edits=[
         ("src/ctap1.rs", "                buf.push(reg.key_handle.len() as u8).map_err(drop)?;", "                let kh_len = reg.key_handle.len() as u8;\n                buf.push(kh_len).map_err(drop)?;")]),
+    dict(id="b16-icon-correct-precheck", note="icon decoder gets a *correct* explicit length pre-check (len > L) in front of push_str", edits=[
+        ("src/webauthn.rs", "    let mut string = String::new();\n    match string.push_str(s) {", "    if s.len() > L {\n        return Ok(None);\n    }\n    let mut string = String::new();\n    match string.push_str(s) {")]),
+    dict(id="b17-vendor-range-contains", note="VendorOperation::try_from rewritten from a match into (FIRST..=LAST).contains(&from)", edits=[
+        ("src/operation.rs", "        match from {\n            code @ Self::FIRST..=Self::LAST => Ok(VendorOperation(code)),\n            _ => Err(()),\n        }",
+         "        if (Self::FIRST..=Self::LAST).contains(&from) {\n            Ok(VendorOperation(from))\n        } else {\n            Err(())\n        }")]),
+    dict(id="b18-seq-enumerate", note="hand-written sequence serializer iterates with .iter().enumerate() (count-preserving)", edits=[
+        ("src/webauthn.rs", "        for element in &self.0 {\n            let el: PublicKeyCredentialParameters = element.clone().into();", "        for (_i, element) in self.0.iter().enumerate() {\n            let el: PublicKeyCredentialParameters = element.clone().into();")]),
+    dict(id="b19-safe-unwrap-in-floor", note="floor_char_boundary: unsafe unwrap_unchecked replaced by a safe unwrap_or(0)", edits=[
+        ("src/webauthn.rs", "        unsafe { lower_bound + new_index.unwrap_unchecked() }", "        lower_bound + new_index.unwrap_or(0)")]),
     dict(id="b15-items-moved", note="an impl block and a struct moved within the file", edits=[
         ("src/operation.rs", "impl Operation {\n    pub fn into_u8(self) -> u8 {\n        self.into()\n    }\n}\n\n", ""),
         ("src/operation.rs", "impl TryFrom<u8> for Operation {", "impl Operation {\n    pub fn into_u8(self) -> u8 {\n        self.into()\n    }\n}\n\nimpl TryFrom<u8> for Operation {")]),
